@@ -480,6 +480,78 @@ def c15_oracle(case):
     return fails
 
 
+def mixed_oracle(case):
+    """C15_mixed on one real mixed-transport case (ONE server): a key granted over one transport, while its hold is live
+    (not unlocked, lease not expired, its session not ended unless no-clear), is accepted by Unlock / Renew over the other.
+    -> (fails [(block index, rule, text)], number of cross-transport uses judged)"""
+    fails, judged = [], 0
+    noclear = bool(case.get("cfg")) and case["cfg"][0] == "1"
+    now = 0
+    holds = {}      # key -> dict(name, sid, lease, via)
+    sid_of = {}     # cookie -> server session id
+    for bi, blk in enumerate(case["blocks"]):
+        e = blk["e"]
+        outs = blk["o"]
+        ends = [o[1] for o in outs if o and o[0] == "end"]
+        grpc = e[0] == "grpc"
+        ev = e[1:] if grpc else e
+        via = "grpc" if grpc else "rest"
+        if not grpc and ev[0] == "create":
+            sid_of[ev[1]] = ev[2]
+        if not grpc and ev[0] == "adv":
+            now += max(0, int(ev[1]))
+            for k in [k for k, h in holds.items() if h["lease"] is not None and h["lease"] <= now]:
+                del holds[k]
+        if grpc and ev[0] == "disc" and not noclear:
+            for k in [k for k, h in holds.items() if h["sid"] == ev[1]]:
+                del holds[k]
+        if ends and not noclear:
+            for k in [k for k, h in holds.items() if h["sid"] in ends]:
+                del holds[k]
+        # requests
+        if grpc and ev[0] in ("try", "unl", "ren"):
+            q, args, sid = ev[0], ev[1:], (ev[1] if ev[0] != "ren" else None)
+            if q != "ren":
+                args = ev[2:]
+        elif not grpc and ev[0] == "req" and len(ev) > 2 and ev[2] in ("try", "unl", "ren"):
+            if [o[1] for o in outs if o and o[0] == "st"] != ["200"]:
+                continue
+            q, args, sid = ev[2], ev[3:], sid_of.get(ev[1])
+        else:
+            continue
+        resp = next((o for o in outs if o and o[0] == "r"), None)
+        if resp is None:
+            continue
+        if q == "try":
+            name, size, lt, key = args[0], args[1], args[2], args[3]
+            if resp[1] == "lock" and resp[2] == "1":
+                lease = now + int(lt) * S if lt not in ("~",) and int(lt) > 0 else None
+                holds[resp[3]] = dict(name=name, sid=sid, lease=lease, via=via)
+        elif q == "unl":
+            name, key = args[0], args[1]
+            h = holds.get(key)
+            if h is not None and h["name"] == name:
+                if h["via"] != via:
+                    judged += 1
+                    if not (resp[1] == "unl" and resp[2] == "1"):
+                        fails.append((bi, "mixed:live-key-refused-over-other-transport",
+                                      "Unlock over %s of a live hold granted over %s answered %s" % (via, h["via"], " ".join(resp))))
+                if resp[1] == "unl" and resp[2] == "1":
+                    del holds[key]
+        elif q == "ren":
+            name, key, lt = args[0], args[1], int(args[2])
+            h = holds.get(key)
+            if h is not None and h["name"] == name and lt > 0 and h["lease"] is not None:
+                if h["via"] != via:
+                    judged += 1
+                    if not (resp[1] == "lock" and resp[2] == "1"):
+                        fails.append((bi, "mixed:live-lease-not-renewed-over-other-transport",
+                                      "Renew over %s of a live lease granted over %s answered %s" % (via, h["via"], " ".join(resp))))
+                if resp[1] == "lock" and resp[2] == "1":
+                    h["lease"] = now + lt * S
+    return fails, judged
+
+
 def case_kinds(case):
     return tuple((b["e"][0] if b["e"][0] != "req" else b["e"][2]) for b in case["blocks"] if b["e"][0] != "probe")
 
@@ -502,6 +574,10 @@ PROFILE_C15 = {
 }
 
 
+PROFILE_MIXED = dict(PROFILE_C15, mode="mixed", weights={"create": 8, "delete": 5, "try": 26, "unl": 24, "ren": 18, "noop": 2, "adv": 17},
+                     sizes=[2, 3, 3], lts=[None, 2, 3, 5, 5, 30], renew_lts=[1, 2, 3, 3], names=["61", "62"], bad_key_pct=5, tmos=[2000000007, 5 * S, 600 * S])
+
+
 def shrink_history(ctx, b, h, fails_fn, budget=30):
     try:
         return seqtie.shrink(ctx, b, h, fails_fn, budget=budget)
@@ -519,21 +595,28 @@ def describe_first(case, bi):
 
 def run_c15_batch(ctx, b, histories=None, profile=None, n=0, seed=0, tag="gen"):
     """Executes (replay or generate), judges with the model and the oracle.
-    -> dict(results, hist, cases, crashes, stats, oracle={id: fails})"""
+    -> dict(results, hist, cases, crashes, stats, oracle={id: fails}, mixed_judged=int)"""
     if histories is not None:
         rr = run_replay(ctx, b, histories, name=tag)
     else:
         rr = run_generated(ctx, b, profile, n, seed, tag=tag)
     results, hist, cases = judge(ctx, b, rr["dirs"], ["all", "C15"])
-    oracle = {}
+    oracle, mixed_judged = {}, 0
     for hid, case in cases.items():
+        mode = (hist.get(hid) or {}).get("mode")
         try:
-            f = c15_oracle(case)
+            if mode == "mixed" or any(blk["e"][0] == "grpc" for blk in case["blocks"]):
+                f, j = mixed_oracle(case)
+                mixed_judged += j
+                if case.get("panic"):
+                    f.append((max(0, len(case["blocks"]) - 1), "gateway-crash", "the REST handler panicked or did not return"))
+            else:
+                f = c15_oracle(case)
         except Exception as ex:  # noqa  (a trace the parser does not understand is a difference, not a crash of the check)
             f = [(0, "unparsable-trace", repr(ex))]
         if f:
             oracle[hid] = f
-    return dict(results=results, hist=hist, cases=cases, crashes=rr["crashes"], stats=rr.get("stats", {}), oracle=oracle)
+    return dict(results=results, hist=hist, cases=cases, crashes=rr["crashes"], stats=rr.get("stats", {}), oracle=oracle, mixed_judged=mixed_judged)
 
 
 def report_failures(ctx, b, batch, prop_fails, mode_runner, what, reported_limit=3):
@@ -605,11 +688,17 @@ def run(ctx):
     prof = dict(PROFILE_C15)
     if ctx.tier != "quick":
         prof["max_len"] = 50
-    corpus = load_corpus("c15")
+    corpus = load_corpus("c15") + load_corpus("mixed")
     batches = []
     if corpus:
         batches.append(run_c15_batch(ctx, b, histories=corpus, tag="corpus"))
     batches.append(run_c15_batch(ctx, b, profile=prof, n=n, seed=ctx.seed, tag="gen"))
+    # ONE server, both transports (C15_mixed)
+    n_mixed = 240 if ctx.tier == "quick" else 4000
+    pm = dict(PROFILE_MIXED)
+    if ctx.tier != "quick":
+        pm["max_len"] = 50
+    batches.append(run_c15_batch(ctx, b, profile=pm, n=n_mixed, seed=ctx.seed, tag="mixed"))
 
     n_cases = n_fail = n_mis = n_tie = n_pairs = 0
     kinds = set()
@@ -645,7 +734,12 @@ def run(ctx):
                       name="correspondence_%s.json" % hid, no_failing_input=True)
     if not coq_ok and not n_fail and not crashes:
         ctx.coq_broken_violation()
-    stats = batches[-1]["stats"]
+    stats = batches[-2]["stats"]
+    cov["ties"]["T1-restdiff-mixed"] = {
+        "histories_on_one_server_with_rest_sessions_and_grpc_connections": len(batches[-1]["cases"]), "generated": n_mixed,
+        "cross_transport_uses_of_a_live_key_judged": sum(bb.get("mixed_judged", 0) for bb in batches),
+        "histories_failing": sum(1 for h in batches[-1]["oracle"]),
+        "model": "replayed on mstep (Model/Rest.v) under projection C15", "generator_distribution": batches[-1]["stats"]}
     tie.update({"histories_executed_on_real_handler_and_real_service": n_cases, "corpus": len(corpus), "generated": n,
                 "rest_grpc_event_pairs_compared": n_pairs, "histories_where_rest_and_grpc_differ": n_fail,
                 "model_mismatches_in_projection": n_mis, "histories_with_timer_tie": n_tie,
@@ -654,7 +748,7 @@ def run(ctx):
                 "crashes_or_hangs": len(crashes),
                 "projection": "C15 (flags, keys, errors, listing, file, lock table)", "generator_distribution": stats})
     cov["traces_validated_against_impl"] = 2 * n_cases
-    cov["evaluations"] = n_pairs
+    cov["evaluations"] = n_pairs + sum(bb.get("mixed_judged", 0) for bb in batches)
     cov["distinct_nontrivial"] = len(kinds)
     cov["exhaustive"] = False
     cov["rule"] = ("histories generated online from one PCG stream per (seed, index); each event is executed on the real REST handler and on the real gRPC "
